@@ -31,7 +31,7 @@ def run_real(ops, addr, srv):
     for k, op in enumerate(ops):
         kind, i = op[0], int(op[1:])
         if kind == 'c':
-            g = gen.get(i, 0) + 1
+            g = k + 1          # the payload the model is given for this registration: `c<i>:<g>`
 
             def mk():
                 return RemoteContext(i, host=addr, target=TG.t_ctx, kwargs={'tag': (i, g), 'base': 100 * i})
@@ -80,9 +80,11 @@ def run_real(ops, addr, srv):
                 return PersistentRemoteWorker(None, host=addr, context=i, main_path='')
             st, w = watchdog(mkw, 10)
             if st == 'ok':
-                replies.append('ok')
                 x = k + 1
                 st2, v = watchdog(lambda: w.call(x), 10)
+                # which registration served this worker (model: `Contexts.serves`, theorem C18_serves_own)
+                served = v[0][1] if st2 == 'ok' and isinstance(v, tuple) and v and isinstance(v[0], tuple) and len(v[0]) == 2 and v[0][0] == i else '?'
+                replies.append(f'ok:{served}')
                 exp = ((i, gen.get(i)), 100 * i + x)
                 if st2 != 'ok' or v != exp:
                     fail = fail or ('wrong-work', f'worker started in context {i} answered {v!r} ({st2}) for input {x}, expected {exp!r}', k)
@@ -150,7 +152,7 @@ def stubborn_sibling(ctx, sess):
 
 def main(ctx: Ctx):
     ctx.assumptions += [
-        'context payloads are abstract in the model (the id); that workers run their context\'s target with its defaults is checked on the real server (tagged targets), through C15\'s top-level patch delivery',
+        'the payload of a context is a number in the model (the position of its registration in the history) and a tag in the defaults of the real context; the tag a real worker answers with is compared with Contexts.serves (which registration serves a worker request); that the defaults reach the target is C15\'s top-level patch delivery',
         'a delete of an unknown id replies True (the code\'s choice) - the specification follows it',
     ]
     ctx.cov['rule'] = ('seeded operation histories (length <= 8, ids 1-3) over {create, create duplicate, delete, delete unknown, start worker in context i (then call it), start worker in unknown context} on a real server, '
@@ -164,7 +166,8 @@ def main(ctx: Ctx):
     rng = ctx.rng
     hists = [['w2', 'c2', 'w2', 'c2', 'd2', 'w2', 'c2', 'w2'], ['c1', 'c2', 'w1', 'w2', 'd1', 'w2', 'd3', 'c1'], ['c1', 'w1', 'x1', 'w1', 'c1', 'd1', 'c1']]
     hists += [gen_ops(rng, rng.randint(3, 8)) for _ in range(10 if not T else 120)]
-    model = ctx.model(['c18 ' + ' '.join(o for o in h if o[0] != 'x') for h in hists])      # a faulty client changes nothing in the table
+    # a faulty client changes nothing in the table; a registration carries its position in the history as payload
+    model = ctx.model(['c18 ' + ' '.join((f'{o}:{k + 1}' if o[0] == 'c' else o) for k, o in enumerate(h) if o[0] != 'x') for h in hists])
     sess = inject.Session()
     try:
         from common import spawn_server
